@@ -75,6 +75,8 @@ def config_tags(cfg: dict) -> str:
         if d.get("container") == "ds" and len({json.dumps(f) for f in d.get("fields", [])}) > 1:
             tags.append("hetero_ds")
             break
+    if any(d.get("extra_coord") for d in (cfg.get("descs") or {}).values()):
+        tags.append("extra_coord")
     return ",".join(tags)
 
 
